@@ -33,6 +33,7 @@ type Clause struct {
 // LocalRef is a function-local variable mentioned by a loop clause.
 type LocalRef struct {
 	Entry bool // entry value of the parameter called Name[len("gvcentry_"):]
+	ParamIdx int // when >= 0 with Entry: positional parameter (receiver first) named by the contract header
 	Name string
 	Type string
 	Pos  token.Pos // declaration position in the phase-1 fileset
